@@ -566,7 +566,7 @@ def r8_grid_values(ctx) -> None:
   """The grid values (trusted by R4 as "enumerated from the config") really are: per type arm, every returned
   list is produced by the clipping decoder, or enumerates bounds / range(bounds) / feasible_values exactly."""
   ci = ctx.index.need_class('vizier._src.algorithms.designers.grid.GridSearchDesigner')
-  fi = ci.methods.get('_grid_points_from_parameter_config')
+  fi = ci.methods.get('_grid_points_from_parameter_config') or ci.module.functions.get('_grid_points_from_parameter_config')
   if fi is None:
     raise AnalysisError('GridSearchDesigner._grid_points_from_parameter_config not found')
   g = cfgmod.CFG(fi.node)
